@@ -426,8 +426,9 @@ func findMaxOccurence(row []int) int {
 	}
 	var max int = 0
 	var maxElem int
-	for k, v := range countmap {
-		if v > max {
+	// walk the row, not the map: of several equally frequent values the first one in the row wins
+	for _, k := range row {
+		if v := countmap[k]; v > max {
 			max = v
 			maxElem = k
 		}
